@@ -4,7 +4,7 @@ CONSTANTS
   GeoSets = {}
   PolGeoSets = {}
   McMixed = {}
-  McMoreSel = {}
+  McMoreSel = FALSE
   Kinds = {}
   CostBase = 10000
   Den = 21
